@@ -365,6 +365,96 @@ fn big_box_scene(rng: &mut Rng) -> Prog {
     Prog { nodes: b.nodes, n_vars: 3, outputs: vec![root] }
 }
 
+/// Grid-aligned scenes: faces on dyadic coordinates (cell corners of the
+/// octree evaluate to exactly 0 there), solids of revolution about a grid
+/// line (the gradient of sqrt(x^2+y^2) is NaN on the axis, where cell edges
+/// cross the surface), dyadic sizes
+fn aligned_scene(rng: &mut Rng) -> Prog {
+    use crate::gen_::shape::B;
+    let mut b = B::new();
+    let (x, y, z) = (b.var(0), b.var(1), b.var(2));
+    let one = |b: &mut B, rng: &mut Rng| -> u32 {
+        let off = |rng: &mut Rng| *rng.pick(&[0.0f32, 0.0, 0.125, -0.125, 0.25, -0.25]);
+        let size = |rng: &mut Rng| *rng.pick(&[0.25f32, 0.375, 0.5]);
+        let (cx, cy, cz) = (off(rng), off(rng), off(rng));
+        let (tx, ty, tz) = (b.subc(x, cx), b.subc(y, cy), b.subc(z, cz));
+        match rng.below(4) {
+            0 => {
+                // box
+                let mut m = None;
+                for t in [tx, ty, tz] {
+                    let a = b.abs(t);
+                    let d = b.subc(a, size(rng));
+                    m = Some(match m {
+                        None => d,
+                        Some(p) => b.max(p, d),
+                    });
+                }
+                m.unwrap()
+            }
+            1 => {
+                // ball as a solid of revolution
+                let (sx, sy, sz) = (b.sq(tx), b.sq(ty), b.sq(tz));
+                let r2 = b.add(sx, sy);
+                let r = b.sqrt(r2);
+                let rr = b.sq(r);
+                let s = b.add(rr, sz);
+                let d = b.sqrt(s);
+                b.subc(d, size(rng))
+            }
+            2 => {
+                // torus about the z axis
+                let (sx, sy, sz) = (b.sq(tx), b.sq(ty), b.sq(tz));
+                let r2 = b.add(sx, sy);
+                let r = b.sqrt(r2);
+                let q = b.subc(r, 0.375);
+                let q2 = b.sq(q);
+                let s = b.add(q2, sz);
+                let d = b.sqrt(s);
+                b.subc(d, *rng.pick(&[0.125f32, 0.1875]))
+            }
+            _ => {
+                // capped cylinder about the z axis
+                let (sx, sy) = (b.sq(tx), b.sq(ty));
+                let r2 = b.add(sx, sy);
+                let r = b.sqrt(r2);
+                let side = b.subc(r, size(rng));
+                let az = b.abs(tz);
+                let cap = b.subc(az, size(rng));
+                b.max(side, cap)
+            }
+        }
+    };
+    let a = one(&mut b, rng);
+    let root = match rng.below(4) {
+        0 | 1 => a,
+        2 => {
+            let c = one(&mut b, rng);
+            b.min(a, c)
+        }
+        _ => {
+            let c = one(&mut b, rng);
+            let n = b.un(crate::gen_::prog::Un::Neg, c);
+            b.max(a, n)
+        }
+    };
+    Prog { nodes: b.nodes, n_vars: 3, outputs: vec![root] }
+}
+
+/// identity, or a dyadic scale with a dyadic translation
+fn dyadic_mat(rng: &mut Rng) -> Matrix4<f32> {
+    let mut m = Matrix4::identity();
+    if rng.chance(0.5) {
+        return m;
+    }
+    let s = *rng.pick(&[1.0f32, 1.25, 1.5, 2.0]);
+    for i in 0..3 {
+        m[(i, i)] = s;
+        m[(i, 3)] = *rng.pick(&[0.0f32, 0.0, 0.125, -0.125]);
+    }
+    m
+}
+
 fn scale_translate_mat(rng: &mut Rng) -> Matrix4<f32> {
     let mut m = Matrix4::identity();
     for i in 0..3 {
@@ -375,16 +465,21 @@ fn scale_translate_mat(rng: &mut Rng) -> Matrix4<f32> {
 }
 
 fn check_prog(p: &Prog, seed: u64, tier: Tier, st: &mut Stats) -> Option<(String, String, Value)> {
-    check_prog_(p, seed, tier, st, false)
+    check_prog_(p, seed, tier, st, 0)
 }
 
-fn check_prog_(p: &Prog, seed: u64, tier: Tier, st: &mut Stats, axis_aligned: bool) -> Option<(String, String, Value)> {
+/// `view`: 0 = random rigid + scale, 1 = scale/translate/mirror, 2 = dyadic
+fn check_prog_(p: &Prog, seed: u64, tier: Tier, st: &mut Stats, view: u8) -> Option<(String, String, Value)> {
     let mut rng = Rng::new(seed);
     let rng = &mut rng;
     let max_depth = tier.pick(5, 6);
     let su = MeshSetup {
         depth: if rng.chance(0.45) { max_depth as u8 } else { 1 + rng.below(max_depth) as u8 },
-        mat: if axis_aligned { scale_translate_mat(rng) } else { random_mesh_mat(rng) },
+        mat: match view {
+            1 => scale_translate_mat(rng),
+            2 => dyadic_mat(rng),
+            _ => random_mesh_mat(rng),
+        },
         jit: rng.chance(0.5),
         pool: if rng.chance(0.5) { None } else { Some(rng.below(POOL_SIZES.len())) },
     };
@@ -452,12 +547,22 @@ impl Prop for C08 {
         tier.pick(110, 1500)
     }
     fn run_case(&self, case: u64, rng: &mut Rng, st: &mut Stats, tier: Tier) {
+        if case % 5 == 3 {
+            let p = aligned_scene(rng);
+            st.distinct(p.hash());
+            st.inc("scenes_grid_aligned");
+            let seed = rng.next_u64();
+            if let Some((sig, msg, detail)) = check_prog_(&p, seed, tier, st, 2) {
+                st.violation(case, sig, msg, json!({"detail": detail, "shape": p.to_json(), "check_seed": seed.to_string()}));
+            }
+            return;
+        }
         if case % 5 == 4 {
             let p = big_box_scene(rng);
             st.distinct(p.hash());
             st.inc("scenes_big_axis_aligned_boxes");
             let seed = rng.next_u64();
-            if let Some((sig, msg, detail)) = check_prog_(&p, seed, tier, st, true) {
+            if let Some((sig, msg, detail)) = check_prog_(&p, seed, tier, st, 1) {
                 st.violation(case, sig, msg, json!({"detail": detail, "shape": p.to_json(), "check_seed": seed.to_string()}));
             }
             return;
